@@ -622,10 +622,27 @@ func (g *gen) genPrograms(m *Model) [][]Op {
 			}
 			progs[ti] = append(progs[ti], Op{Kind: OpClose, HSel: 1})
 		}
+		treeRun := len(progs[0]) > 2 && progs[0][1].Kind == OpCreateScope && o.PTree > 0
 		nops := 1 + g.n(StOps, o.MaxOps)
 		for j := 0; j < nops; j++ {
 			k := g.weighted(StOps, o.WOp[:])
 			op := Op{Kind: k, HSel: g.n(StOps, 6)}
+			if ti > 0 && treeRun && g.p(StOps, 500) {
+				// the other clients work on the template's parent scope h1 while client 0 closes it:
+				// child creation (inheriting h1's context), resolutions, cancellation
+				op.HSel = 1
+				switch g.n(StOps, 5) {
+				case 0, 1:
+					op.Kind = OpCreateScope
+					op.CtxKind = []int{CtxNil, CtxFromScope, CtxNil}[g.n(StOps, 3)]
+					progs[ti] = append(progs[ti], op)
+					continue
+				case 2:
+					op.Kind = OpCancel
+					progs[ti] = append(progs[ti], op)
+					continue
+				}
+			}
 			switch k {
 			case OpResolve:
 				if len(idents) == 0 || g.p(StOps, o.PProbeUnregistered) {
